@@ -44,11 +44,11 @@ def callFrame (s : Sdk) (fi : FnInfo) (out : Option Str) (line : Nat) : FnCall :
     isScoped := fi.isScoped }
 
 /-- `return` on line `line` belongs to the frame `ci` -/
-def RetMatches (ci : FnCall) (line : Nat) (s : Sdk) : Prop :=
+abbrev RetMatches (ci : FnCall) (line : Nat) (s : Sdk) : Prop :=
   ci.startLine < line ∧ line < ci.endLine ∧ ci.ctx = s.lineCtx
 
 /-- `end_fn` on line `line` belongs to the frame `ci` -/
-def EndMatches (ci : FnCall) (line : Nat) (s : Sdk) : Prop :=
+abbrev EndMatches (ci : FnCall) (line : Nat) (s : Sdk) : Prop :=
   ci.endLine = line ∧ ci.ctx = s.lineCtx
 
 /-! ### 1. the call -/
@@ -283,7 +283,8 @@ theorem C05_scoped_isolation (name : Str) (args : List Str) (out : Option Str) (
     ⟨h1, h2, by simp [callFrame, hctx]⟩
   have hr : r = _ := C05_return_scoped nested endRec is v more retOut retLine bodyVars s1
     (callFrame s0 fi out callLine) frames vars0 scopes hfn hscope hm (by simpa [callFrame] using hsc)
-  rw [hc, hr]
+  clear_value c r
+  subst hc hr
   simp only [hsc, if_true]
   refine ⟨rfl, rfl, ?_, rfl, rfl, rfl, ?_, rfl⟩
   · intro k hk
@@ -313,23 +314,25 @@ theorem C05_return_ignores_block_stacks (c : Cmd) (hc : c = .returnC ∨ c = .en
     | none => rfl
     | some ci =>
       simp only
-      split
-      · cases ci.isScoped
-        · rfl
+      by_cases hcond : ci.startLine < line ∧ line < ci.endLine ∧ ci.ctx = s.lineCtx
+      · simp only [hcond, and_self, if_true]
+        cases hsc : ci.isScoped
+        · simp
         · simp only [scopePop, if_true]
-          cases s.scopeStack.head? <;> rfl
-      · rfl
+          cases s.scopeStack.head? <;> simp
+      · simp only [hcond, if_false]
   · simp only [runCmd, withBlockStacks]
     cases s.fnStack.head? with
     | none => rfl
     | some ci =>
       simp only
-      split
-      · cases ci.isScoped
-        · rfl
+      by_cases hcond : ci.endLine = line ∧ ci.ctx = s.lineCtx
+      · simp only [hcond, and_self, if_true]
+        cases hsc : ci.isScoped
+        · simp
         · simp only [scopePop, if_true]
-          cases s.scopeStack.head? <;> rfl
-      · rfl
+          cases s.scopeStack.head? <;> simp
+      · simp only [hcond, if_false]
 
 /-- not written: the three block stacks of the result are those of the input -/
 theorem C05_return_keeps_block_stacks (c : Cmd) (hc : c = .returnC ∨ c = .endFunction)
@@ -343,23 +346,25 @@ theorem C05_return_keeps_block_stacks (c : Cmd) (hc : c = .returnC ∨ c = .endF
     | none => exact ⟨rfl, rfl, rfl⟩
     | some ci =>
       simp only
-      split
-      · cases ci.isScoped
-        · exact ⟨rfl, rfl, rfl⟩
+      by_cases hcond : ci.startLine < line ∧ line < ci.endLine ∧ ci.ctx = s.lineCtx
+      · simp only [hcond, and_self, if_true]
+        cases hsc : ci.isScoped
+        · simp
         · simp only [scopePop, if_true]
-          cases s.scopeStack.head? <;> exact ⟨rfl, rfl, rfl⟩
-      · exact ⟨rfl, rfl, rfl⟩
+          cases s.scopeStack.head? <;> simp
+      · simp only [hcond, if_false, and_self]
   · simp only [runCmd]
     cases s.fnStack.head? with
     | none => exact ⟨rfl, rfl, rfl⟩
     | some ci =>
       simp only
-      split
-      · cases ci.isScoped
-        · exact ⟨rfl, rfl, rfl⟩
+      by_cases hcond : ci.endLine = line ∧ ci.ctx = s.lineCtx
+      · simp only [hcond, and_self, if_true]
+        cases hsc : ci.isScoped
+        · simp
         · simp only [scopePop, if_true]
-          cases s.scopeStack.head? <;> exact ⟨rfl, rfl, rfl⟩
-      · exact ⟨rfl, rfl, rfl⟩
+          cases s.scopeStack.head? <;> simp
+      · simp only [hcond, if_false, and_self]
 
 /-! ### 8. the known defect: `return` out of a for-in loop leaves the loop's iteration state -/
 
@@ -426,9 +431,9 @@ theorem C05_fresh_call_counterexample :
     r1 = f ${h}
     r2 = f ${h}
     ``` -/
-def C05_twoCalls (scoped : Bool) (items : List Str) : List Instruction := Spec.program.go
+def C05_twoCalls (sc : Bool) (items : List Str) : List Instruction := Spec.program.go
   [ Spec.mkInstr (some "h".toList) "array".toList items,
-    Spec.mkInstr none "fn".toList (if scoped then ["<scope>".toList, "f".toList] else ["f".toList]),
+    Spec.mkInstr none "fn".toList (if sc then ["<scope>".toList, "f".toList] else ["f".toList]),
     C05_line none "for" ["i", "in", "${1}"],
     C05_line none "return" ["${i}"],
     C05_line none "end" [],
@@ -440,10 +445,10 @@ def C05_twoCalls (scoped : Bool) (items : List Str) : List Instruction := Spec.p
     `<scope>` function) both calls — same function, same argument — give the same result.
     FALSE for the implementation, see `C05_fresh_call_refuted`. -/
 def C05_fresh_call_statement : Prop :=
-  ∀ (scoped : Bool) (items : List Str) (fuel : Nat),
-    (interpRun fuel (C05_twoCalls scoped items) [] {}).2 = .reachedEnd →
-    (interpRun fuel (C05_twoCalls scoped items) [] {}).1.vars.get "r1".toList =
-      (interpRun fuel (C05_twoCalls scoped items) [] {}).1.vars.get "r2".toList
+  ∀ (sc : Bool) (items : List Str) (fuel : Nat),
+    (interpRun fuel (C05_twoCalls sc items) [] {}).2 = .reachedEnd →
+    (interpRun fuel (C05_twoCalls sc items) [] {}).1.vars.get "r1".toList =
+      (interpRun fuel (C05_twoCalls sc items) [] {}).1.vars.get "r2".toList
 
 theorem C05_fresh_call_scoped_counterexample :
     (interpRun 200 (C05_twoCalls true ["a".toList, "b".toList, "c".toList]) [] {}).2 = .reachedEnd ∧
@@ -488,11 +493,12 @@ section nonvacuity
 
 def exFi : FnInfo := { start := 1, stop := 5, isScoped := true }
 def exS0 : Sdk := { fns := [("f".toList, exFi)] }
-def exFrame (scoped : Bool) : FnCall :=
-  { callLine := 6, startLine := 1, endLine := 5, ctx := [], out := some "r".toList, isScoped := scoped }
+def exFrame (sc : Bool) : FnCall :=
+  { callLine := 6, startLine := 1, endLine := 5, ctx := [], out := some "r".toList, isScoped := sc }
 
 /-- `C05_call_binds_args` -/
-example : ∃ s name fi, Sdk.fns s |>.get name = some fi := ⟨exS0, "f".toList, exFi, by decide⟩
+example : ∃ (s : Sdk) (name : Str) (fi : FnInfo), s.fns.get name = some fi :=
+  ⟨exS0, "f".toList, exFi, by decide⟩
 /-- `C05_params_lookup` -/
 example : ∃ (args : List Str) (i : Nat), i < args.length := ⟨["x".toList], 0, by decide⟩
 /-- `C05_params_other`: "x" is not a parameter name of a two-argument call -/
@@ -535,6 +541,7 @@ example : ∃ (s1 : Sdk) (frames : List FnCall) (scopes : List Vars) (vars0 : Va
     exFi.start < retLine ∧ retLine < exFi.stop :=
   ⟨{ exS0 with fnStack := [callFrame exS0 exFi (some "r".toList) 6], scopeStack := [[("x".toList, "1".toList)]] },
     [], [], _, 3, by decide, rfl, rfl, rfl, rfl, by decide, by decide⟩
+
 /-- `C05_return_leaves_for_state`: see the state built in `C05_return_cleans_loops_refuted`; the
     witness run reaches such a state at its first `return` -/
 example : ∃ (s : Sdk) ci rest fc fors line, s.fnStack = ci :: rest ∧ RetMatches ci line s ∧
